@@ -1,4 +1,6 @@
 """Helpers for relation oracles between operator tensors."""
+import re
+
 import numpy as np
 
 from . import yrun
@@ -10,16 +12,64 @@ def is_dispatch_rejection(e):
     return isinstance(e, ModuleNotFoundError) and (yrun.yadism_site(e.__traceback__) or "").endswith("kernels.py:import_local")
 
 
+# runs a relation needs that failed in a way that is neither an explicit rejection of an unsupported configuration nor an open known finding:
+# collected here per execution and turned into a violation of the running check by the engine (a check must not become vacuous because the runs it compares crash)
+FAILED = []
+_KNOWN_BLOCKED = re.compile(r"g1_nc' has no attribute '(GluonFL11|QuarkFL11|AsyNNNLL(Gluon|Singlet|NonSinglet))'")  # known finding C16-g1-N3LO-missing-classes
+_KINEMATIC_SITES = ("esf/esf.py:__init__", "esf/exs.py:__init__", "esf/tmc.py:__init__", "esf/tmc.py:_convolve_FX")
+
+
+def pop_failed():
+    out = list(FAILED)
+    FAILED.clear()
+    return out
+
+
+def _cellsum(cell, obs_map):
+    c = {k: v for k, v in cell.items() if k not in ("slice", "xlab")}
+    return f"{c} observables {sorted(obs_map)[:4]}"
+
+
+def note_failure(e, cell, obs_names):
+    """For harness code that catches exceptions of a real run itself: record the failure (-> violation of the running check) unless it is an
+    accepted exclusion (dispatch rejection of polarised CC, explicit NotImplementedError/ValueError not coming from the kinematic validation,
+    the open known finding). Returns the classification."""
+    info = yrun.classify_exception(e)
+    desc = _cellsum(cell, {n: None for n in obs_names})
+    if isinstance(e, EXPLICIT):
+        if not yrun.raised_explicitly(e):
+            FAILED.append(dict(info, why="not raised by an explicit raise statement", cell=desc))
+        elif info["site"] in _KINEMATIC_SITES:
+            FAILED.append(dict(info, why="valid kinematics rejected", cell=desc))
+    elif is_dispatch_rejection(e):
+        pass
+    elif not (info["exc"] == "AttributeError" and _KNOWN_BLOCKED.search(info["excmsg"])):
+        FAILED.append(dict(info, why="unexpected exception", cell=desc))
+    return info
+
+
 def try_run(cell, obs_map):
-    """Run; returns (out, status) with status in ok / rejected / blocked:<exc>:<site>."""
+    """Run; returns (out, status) with status in ok / rejected / blocked:<exc>:<site>.
+
+    rejected = ValueError / NotImplementedError from a literal raise statement, or the dispatch rejection of polarised CC.
+    Every lattice of the relation checks contains valid kinematics only, so a rejection coming from the kinematic validation, an
+    'explicit' exception type produced by an internal lookup, and any other exception except the open known finding are recorded in FAILED.
+    """
     try:
         return yrun.run(cell, obs_map), "ok"
     except EXPLICIT as e:
+        info = yrun.classify_exception(e)
+        if not yrun.raised_explicitly(e):
+            FAILED.append(dict(info, why="not raised by an explicit raise statement", cell=_cellsum(cell, obs_map)))
+        elif info["site"] in _KINEMATIC_SITES:
+            FAILED.append(dict(info, why="valid kinematics rejected", cell=_cellsum(cell, obs_map)))
         return None, "rejected"
     except Exception as e:  # noqa
         if is_dispatch_rejection(e):
             return None, "rejected"
         info = yrun.classify_exception(e)
+        if not (info["exc"] == "AttributeError" and _KNOWN_BLOCKED.search(info["excmsg"])):
+            FAILED.append(dict(info, why="unexpected exception", cell=_cellsum(cell, obs_map)))
         return None, f"blocked:{info['exc']}:{info['site']}"
 
 
